@@ -269,6 +269,23 @@ def c15_reap(ctx):
         stale = [b for b in idx_removes if rf.blocks[b]['term']['target'] is not None and not rf.must_pass(rf.blocks[b]['term']['target'], set(idx_removes), set(cmps))]
         if idx_removes and (not cmps or stale):
             out.append(bad('ORD-C15-reap', key + '|index-fresh', 'a thread is removed from the table by an index that was computed before an earlier removal: with two finished threads in one pass the index is stale (wrong thread removed, or a panic while the threads lock is held, which poisons scheduling for every object)', fn=rf.name))
+        # the "despawned while busy" sanity panic may only fire for a thread that exited cleanly: a thread killed by a panicking job dies
+        # with its busy flag set, and a panic here unwinds through whatever healthy operation happened to trigger the reaping
+        from .ordq import result_edges, edge_for, edom
+        panics = [bb for bb, t in rf.calls() if (t['func'].get('fn') or '') in ('std::panicking::begin_panic', 'core::panicking::panic', 'core::panicking::panic_fmt')
+                  and not rf.blocks[bb]['cleanup'] and 'assert' not in (t['sp'].get('mac') or '')]
+        ok_edges = []
+        for f_, jb in joins:
+            if f_ is rf:
+                e_ = result_edges(rf, jb)
+                oe = edge_for(e_, 'core::result::Result', 'Ok') if e_ else None
+                if oe is not None:
+                    ok_edges.append(oe)
+        loose = [b for b in panics if not any(edom(rf, oe, b) for oe in ok_edges)]
+        # panics of `.expect()/.unwrap()` on lock results are calls into core, not sites of this function: only explicit panic! sites count
+        if loose:
+            out.append(bad('ORD-C15-reap', key + '|panic-only-after-clean-exit', 'remove_finished_threads can panic for a thread that did not exit cleanly (the panic is not confined to the Ok edge of join()): '
+                           'after a job has killed a pool thread, the next scheduling call of any healthy object panics', fn=rf.name))
         okk = all('SchedulerCore.threads' in H.held_at_term(b) for f, b in removes) and all('SchedulerCore.threads' not in H.held_at_term(b) for f, b in joins)
         bj = all(bounded_join(ctx, rf, b) for f, b in joins)
         if okk and bj:
